@@ -409,6 +409,105 @@ def _compatible(roles, want):
   return True
 
 
+def rule_frozen_scale(rep, repo):
+  """R7: a quantizer whose scale does not depend on the data (constant
+  alpha, or a post-training scale frozen with the library's utility) must
+  still be data-independent - and compute the same function - after a layer
+  has installed it: every quantized layer calls _set_trainable_parameter()
+  on its kernel quantizer.  (Necessary for "a second export changes
+  nothing": a scale re-derived from already quantized weights differs.)"""
+  from .. import quant
+  from ..pe import ConfigRejected
+  mod = repo.module(quant.QMOD)
+  pts = Tensor(("sym", "post_training_scale"), None)
+  n = 0
+  for cname, ci in sorted(mod.classes.items()):
+    owner, fn = ci.find_method("_set_trainable_parameter")
+    if fn is None or cname.startswith("_"):
+      continue
+    params = [p for p, _ in ci.init_params()[0]]
+    if "alpha" not in params:
+      continue
+    unit = "%s::%s._set_trainable_parameter" % (mod.relpath, cname)
+    rep.unit(unit)
+    cfgs = [dict(alpha=F(2)), dict(alpha=F(1, 4))]
+    if "post_training_scale" in params:
+      cfgs += [dict(alpha="auto_po2", post_training_scale=pts),
+               dict(alpha="auto_po2", post_training_scale=pts, bits=4,
+                    integer=1, keep_negative=False)]
+    for kw in cfgs:
+      cfg = "%s(%s)" % (cname, ",".join(
+          "%s=%s" % (k, "PTS" if v is pts else v) for k, v in kw.items()))
+      syms = {"post_training_scale": NF.sym("pts")}
+      try:
+        b0 = quant.build(repo, cname, kw)
+        pe, q = quant.construct(repo, cname, kw)
+        pe.call(pe.getattr(q, "_set_trainable_parameter"), [], {})
+        out = pe.call(q, [pe.x_input()], {})
+      except (ConfigRejected, PyRaise):
+        continue
+      n += 1
+      for ph in ("infer", "train"):
+        f0 = Fwd(ph, syms)(b0.term)
+        f1 = Fwd(ph, syms)(out.term)
+        dep = sorted({a[1] for a in f1.atoms() if a[0] == "app" and
+                      a[1].startswith("reduce_")})
+        rep.check(not dep, "R7", unit, "frozen-scale-becomes-data-dependent",
+                  "%s: after _set_trainable_parameter() (called by every "
+                  "layer on its kernel quantizer) the output depends on "
+                  "data reductions %s: the fixed / frozen scale is "
+                  "re-derived from the tensor" % (cfg, dep),
+                  loc=owner.module.loc(fn), instance=cfg)
+        rep.check(equal_mod_finite(f0, f1), "R7", unit,
+                  "installation-changes-the-function",
+                  "%s computes a different function once "
+                  "_set_trainable_parameter() has been called" % cfg,
+                  loc=owner.module.loc(fn), instance=cfg)
+  if n < 8:
+    raise AnalysisError("instance-count only %d frozen-scale configurations"
+                        % n)
+
+
+def rule_fusing_pairs(rep, repo):
+  """R8: find_bn_fusing_layer_pair is interpreted on a synthetic layer graph:
+  a QConv2D / QDepthwiseConv2D is paired with a QBatchNormalization (whose
+  terms are then fused into the exported weights and which is skipped) only
+  when that batch-normalisation is its sole consumer."""
+  from ..graphmock import harness
+  um = repo.module(UM)
+  fn = um.functions.get("find_bn_fusing_layer_pair")
+  if fn is None:
+    raise AnalysisError("anchor-missing utils.find_bn_fusing_layer_pair")
+  unit = "%s::find_bn_fusing_layer_pair" % um.relpath
+  rep.unit(unit)
+  loc = um.loc(fn)
+  G, graph, qg, removed, topo = harness("QConv2D", "QDepthwiseConv2D",
+                                        "QBatchNormalization", "QDense")
+  model = Mock("model", {})
+  pe = PE(repo, module_overrides={um.name: {
+      "clone_model": lambda pe, a, k: model, "qgraph": qg}})
+  pe.opaque_ext = True
+  pe.ext_overrides = {"*.topological_sort": topo}
+  try:
+    r = pe.call(pe.lookup_global("find_bn_fusing_layer_pair", um), [model],
+                {})
+    pairs, skip = r[0], r[1]
+  except PyRaise as e:
+    rep.fail("R8", unit, "pair-selection-raises",
+             "find_bn_fusing_layer_pair raises %s on the synthetic graph" % e,
+             loc=loc)
+    return
+  want = {"c2_only_bn": "bn2", "dw3_only_bn": "bn3"}
+  rep.check(dict(pairs) == want, "R8", unit, "fusing-pairs",
+            "layer / batch-norm pairs selected for fusing: %s; only layers "
+            "whose sole consumer is the batch-normalisation may be fused: %s"
+            % (dict(pairs), want), loc=loc)
+  rep.check(sorted(skip) == sorted(want.values()), "R8", unit,
+            "skipped-batchnorm-layers",
+            "batch-normalisation layers marked to be skipped: %s, expected "
+            "%s" % (sorted(skip), sorted(want.values())), loc=loc)
+
+
 def run(rep, repo, tier):
   rep.trusted.append("Keras weight order of the parent layer classes "
                      "(table in the rule); set_weights stores what it is "
@@ -420,6 +519,10 @@ def run(rep, repo, tier):
   rule_export(rep, repo)
   rule_bn_fusing(rep, repo)
   rule_pairing(rep, repo)
+  rule_frozen_scale(rep, repo)
+  rule_fusing_pairs(rep, repo)
+  rep.require_instances("R8", 2)
+  rep.require_instances("R7", 30)
   rep.require_instances("R1", 3)
   rep.require_instances("R2", 4)
   rep.require_instances("R3", 10)
